@@ -4,6 +4,7 @@ import (
 	"bytes"
 	"fmt"
 	"reflect"
+	"regexp"
 	"strings"
 	"time"
 
@@ -112,6 +113,17 @@ func newWorld() *world {
 	withExtra := rh.Encode(ext)
 	addB("struct with an unknown field holding an unknown-class object", withExtra)
 	addB("garbage: the same, truncated inside the unknown field", withExtra[:len(withExtra)-6])
+	for _, uv := range []struct {
+		n string
+		v *rh.Value
+	}{
+		{"a typed map of an unregistered type", &rh.Value{K: rh.Map, Typed: true, Type: "com.acme.Unknown", Elems: []*rh.Value{rh.StringV("k"), rh.IntV(1)}}},
+		{"a typed list of an unregistered type", &rh.Value{K: rh.List, Typed: true, Type: "[com.acme.Unknown", Elems: []*rh.Value{rh.IntV(1)}}},
+	} {
+		ext2 := &rh.Value{K: rh.Object, Class: r11, Elems: []*rh.Value{rh.IntV(5), uv.v, rh.StringV("x"), rh.NullV()}}
+		addB("struct with an unknown field holding "+uv.n, rh.Encode(ext2))
+	}
+	addB("stale: typed map of an unregistered type at top level", []byte{'M', 0x10, 'c', 'o', 'm', '.', 'a', 'c', 'm', 'e', '.', 'U', 'n', 'k', 'n', 'o', 'w', 'n', 0x01, 'k', 0x91, 'Z'})
 	addB("stale: typed list of an unregistered type at top level", []byte{0x71, 0x08, '[', 'n', 'o', 's', 'u', 'c', 'h', 'T', 0x91})
 	addB("stale: instance of an unregistered class at top level", append([]byte{'C', 0x07, 'N', 'o', 'S', 'u', 'c', 'h', 'T', 0x91, 0x01, 'q', 0x60}, 0x91))
 	for _, v := range w.vals {
@@ -188,12 +200,18 @@ type op11 struct {
 	run     func(in *inst11) string
 }
 
+var rePointer = regexp.MustCompile(`0x[0-9a-f]{8,}`)
+
+// exactErr keeps an error message as it is except for printed addresses: a reused instance has to report
+// what a fresh one reports, text included.
+func exactErr(s string) string { return rePointer.ReplaceAllString(s, "0xP") }
+
 func encRes(b []byte, err error, p string) string {
 	switch {
 	case p != "":
 		return "PANIC " + msgStrict(p)
 	case err != nil:
-		return "ERR " + msgStrict(err.Error())
+		return "ERR " + exactErr(err.Error())
 	}
 	return fmt.Sprintf("%x", b)
 }
@@ -203,7 +221,7 @@ func decRes(v interface{}, err error, p string) string {
 	case p != "":
 		return "PANIC " + msgStrict(p)
 	case err != nil:
-		return "ERR " + msgStrict(err.Error())
+		return "ERR " + exactErr(err.Error())
 	}
 	return render(v)
 }
